@@ -689,7 +689,8 @@ fn drive(
         Term::Unbounded => check_unbounded(ctx, r, at),
         Term::Limit => {
             ctx.probes.interrupted += 1;
-            if pivots != limit {
+            // (a budget of zero or less allows no pivot at all)
+            if pivots != limit.max(0) {
                 ctx.v(
                     "iteration-budget",
                     format!("{at}: IterationLimitReached after {pivots} pivots with a budget of {limit}"),
@@ -1430,14 +1431,14 @@ fn gen_ops(rng: &mut Rng, w: usize, phase1: &[usize]) -> Vec<Op> {
                 prefer: gen_prefer(rng, w, phase1),
             },
             1 => Op::Solve {
-                limit: *rng.pick(&[0i64, 1, 2, 3, 5, FULL_LIMIT]),
+                limit: *rng.pick(&[0i64, 1, 2, 3, 5, FULL_LIMIT, FULL_LIMIT, -1, i64::MIN]),
             },
             2 => Op::SolveAvoiding {
-                limit: *rng.pick(&[1i64, 2, 3, 4, 8, FULL_LIMIT]),
+                limit: *rng.pick(&[1i64, 2, 3, 4, 8, FULL_LIMIT, FULL_LIMIT, 0, -3]),
                 prefer: gen_prefer(rng, w, phase1),
             },
             3 => Op::SolveStepByStep {
-                limit: *rng.pick(&[1i64, 2, 3, 6, FULL_LIMIT]),
+                limit: *rng.pick(&[1i64, 2, 3, 6, FULL_LIMIT, FULL_LIMIT, 0, -2]),
             },
             _ => {
                 if snapshots < 2 {
